@@ -903,6 +903,24 @@ func c09Exec(t *testing.T, rng *vrng, transport string, plan []string) (c09In, c
 	for _, w := range rest {
 		in.Steps = append(in.Steps, c09Step{T: "observe", W: w})
 	}
+	// a common grace period: outcomes already handed out reach their parties' goroutines (a loaded
+	// machine schedules them late); it ends as soon as nobody is without one
+	grace := 300
+	if closed { // after shutdown every party that still waits is owed an outcome: wait for it longer
+		grace = 3000
+	}
+	for i := 0; i < grace; i++ {
+		missing := false
+		for _, e := range exts {
+			if len(e.done) == 0 && !(closed && e.abandoned) {
+				missing = true
+			}
+		}
+		if !missing {
+			break
+		}
+		time.Sleep(time.Millisecond)
+	}
 	for _, e := range exts {
 		var v string
 		select {
